@@ -132,3 +132,41 @@ def tvStep (tvs : List Int) : List (Nat × PrvRec) → List Int
   | x :: xs => tvStep (tvs.set x.1 x.2.value) xs
 
 end Ovni.Emu
+
+namespace Ovni.Emu
+open Ovni.Generated
+
+/-! ### `records` (View.lean) split into system rows and model rows
+
+A thread / CPU row of `records` is three `emitRaw` records of system channels
+(thread: cpu, tid, state; CPU: pid, tid, nrunning) followed by one `emitView`
+per model channel.  The model part is what the tracking muxes feed. -/
+
+def thSysList (t : Thread) : List (Except Err (List PrvRec)) :=
+  [emitRaw 0 (t.gindex + 1) prvThreadCpu prvNext t.chCpu,
+   emitRaw 0 (t.gindex + 1) prvThreadTid 0 t.chTid,
+   emitRaw 0 (t.gindex + 1) prvThreadState prvSkipDup t.chState]
+
+def thViewList (specs : List ModelSpec) (told t : Thread) : List (Except Err (List PrvRec)) :=
+  specs.flatMap fun m => (List.range m.nch).map fun i =>
+    emitView 0 (t.gindex + 1) (m.pvtType.getD i 0) (m.prvFlags.getD i 0) (thView told m i) (thView t m i)
+
+def cpuSysList (c : Cpu) : List (Except Err (List PrvRec)) :=
+  [emitRaw 1 (c.gindex + 1) prvCpuPid 0 c.chPid,
+   emitRaw 1 (c.gindex + 1) prvCpuTid 0 c.chTid,
+   emitRaw 1 (c.gindex + 1) prvCpuNrun prvZero c.chNrun]
+
+def cpuViewList (specs : List ModelSpec) (old new : Emu) (cold c : Cpu) : List (Except Err (List PrvRec)) :=
+  specs.flatMap fun m => (List.range m.nch).map fun i =>
+    emitView 1 (c.gindex + 1) (m.pvtType.getD i 0) (m.prvFlags.getD i 0) (cpuView old cold m i) (cpuView new c m i)
+
+/-- the system-row records of a step: dirty system channels of the new state -/
+def sysRecords (new : Emu) : Except Err (List PrvRec) :=
+  collect (new.threads.flatMap thSysList ++ new.cpus.flatMap cpuSysList)
+
+/-- the model-row records of a step: every thread / CPU view that changed -/
+def viewRecords (old new : Emu) : Except Err (List PrvRec) :=
+  collect (new.threads.flatMap (fun t => thViewList new.specs (old.threads.getD t.gindex t) t) ++
+           new.cpus.flatMap (fun c => cpuViewList new.specs old new (old.cpus.getD c.gindex c) c))
+
+end Ovni.Emu
